@@ -46,7 +46,7 @@ fn probes() -> Vec<Probe> {
 }
 
 fn main() {
-    vh::quiet_panics();
+    quiet_panics();
     let args: Vec<String> = std::env::args().collect();
     let mode = args.get(1).map(String::as_str).unwrap_or("emit");
     match mode {
@@ -145,11 +145,11 @@ fn emit() {
 
 fn ser(path: &str) {
     let shapes = c17_shapes();
-    let mut out = vh::Out::new();
-    for (id, ints) in vh::read_cases(path) {
+    let mut out = Out::new();
+    for (id, ints) in read_cases(path) {
         let idx = ints[0] as usize;
         let f = shapes[idx].ser;
-        let r = vh::guarded(|| f(&ints[1..]));
+        let r = guarded(|| f(&ints[1..]));
         match r {
             Ok(Ok(b)) => {
                 let mut o = vec![0i128];
@@ -180,7 +180,7 @@ fn parse(path: &str) {
             None => json!({"id": v["id"], "ok": false, "error": "no codec"}),
             Some(c) => {
                 let f = c.3;
-                match vh::guarded(|| f(&bytes)) {
+                match guarded(|| f(&bytes)) {
                     Ok(Ok((dbg, b))) => json!({"id": v["id"], "ok": true, "debug": dbg, "hex": hex(&b)}),
                     Ok(Err(e)) => json!({"id": v["id"], "ok": false, "error": e}),
                     Err(()) => json!({"id": v["id"], "ok": false, "error": "panic"}),
